@@ -7,6 +7,7 @@
   permutation of the entries (keys distinct, as in a Go map) gives the same result.
 -/
 import TwProofs.Lemmas.Sort
+import TwProofs.Lemmas.EvalStep
 
 namespace Tw.C14
 open Tw
@@ -30,7 +31,7 @@ theorem component_args_order_independent (fuel : Nat) (c : Ctx) (env : Env) (t :
     evalStmt fuel c env (.component t name (some p1) cid) = evalStmt fuel c env (.component t name (some p2) cid) := by
   cases fuel with
   | zero => rfl
-  | succ f => simp only [evalStmt, sortByKey_perm_invariant p1 p2 hp hd]
+  | succ f => simp only [evalStmt_succ, stmtBody, sortByKey_perm_invariant p1 p2 hp hd]
 
 /-- the data map: environment, or which value is reported as unsupported / re-typed -/
 theorem data_map_order_independent (d1 d2 : List (Bytes × GoVal)) (hp : d1.Perm d2) (hd : KeysDistinct d1) :
